@@ -160,23 +160,21 @@ impl Output {
                     verbose_timing_phase!("Create output file");
 
                     if output_config.file_write_mode == FileWriteMode::UnlinkAndReplace {
-                        // Rename the old output file so that we can create a new file in its place.
+                        // Unlink the old output file so that we can create a new file in its place.
                         // Reusing the existing file would also be an option, but that wouldn't
-                        // error if the file is currently being executed.
-                        let renamed_old_file = path.with_extension("delete");
-                        let rename_status = std::fs::rename(&path, &renamed_old_file);
-
-                        // If there was an old output file that we renamed, then delete it. We do so
-                        // from a separate task so that it can run in the background while other
-                        // threads continue working. Deleting can take a while for large files.
-                        if rename_status.is_ok() {
+                        // error if the file is currently being executed. We don't rename the old
+                        // file to a temporary name first, since any name we pick might belong to
+                        // some other file of the user's. Instead we keep the old file open while
+                        // we unlink it, so that the expensive part of deleting a large file
+                        // (releasing its blocks when the last reference goes away) happens when we
+                        // close it, which we do from a separate task so that it can run in the
+                        // background while other threads continue working.
+                        let old_file = std::fs::File::open(&path).ok();
+                        if std::fs::remove_file(&path).is_ok()
+                            && let Some(old_file) = old_file
+                        {
                             rayon::spawn(move || {
-                                let _ = std::fs::remove_file(renamed_old_file);
-                                // Note, we don't currently signal when we've finished deleting the
-                                // file. Based on experiments run on Linux 6.9.3, if we exit while
-                                // an unlink syscall is in progress on a separate thread, Linux will
-                                // wait for the unlink syscall to complete before terminating the
-                                // process.
+                                drop(old_file);
                             });
                         }
                     }
